@@ -279,7 +279,7 @@ def never_raise(chk: Check) -> None:
                f'the pause future is resolved only when it exists (guarded={guarded}) and forgotten right after on every path (cleared={cleared}): with this '
                f'discipline "exists" implies "pending", so neither play() nor termination can resolve it twice', node=s.call, kind='resolve-and-clear')
     # creation only in on_paused / load
-    for f, node in attr_writers(prog, '_paused'):
+    for f, node in __import__('plumpy_sa.rules', fromlist=['effective_writers']).effective_writers(prog, '_paused'):
         ok = f.qualname in ('processes.Process.__init__', 'processes.Process.on_paused', 'processes.Process.on_playing', 'processes.Process.on_terminated')
         chk.ob('OWN-pause-future', f, ok, 'the pause future is created by on_paused and cleared by on_playing / termination only', node=node, kind='writer',
                expr='_paused store')
